@@ -197,14 +197,16 @@ def build_fn(f, sources, fnmeta):
         blines[pos:pos] = txt
     inj_body = '\n'.join(blines)
     contract = '\n'.join(f.contract)
-    if lost:
-        # some proof hints of this function no longer find their place: the function is NOT verified this run (its
-        # contract is assumed for the callers) and is reported as undecided; the Kani stage is asked instead
+    hard = [x for x in lost if x.startswith('loop ')]
+    if hard:
+        # a loop invariant no longer finds its loop: the function cannot be checked this run (its contract is
+        # assumed for the callers) and is reported as undecided; the Kani stage is asked instead
         full = '\n'.join([a for a in f.attrs if 'spinoff' not in a and 'no_decreases' not in a] + ['#[verifier::external_body]', sig + ('\n' + contract if contract.strip() else '') + '\n{ unimplemented!() }'])
-        twin = None
     else:
+        # lost before/after hints (assertions, lemma calls) are simply left out: if the function still verifies it is
+        # proved; if it does not, the failure is 'undecided' (cli.py) because a missing hint may be the only reason
         full = '\n'.join(f.attrs + [sig + ('\n' + contract if contract.strip() else '') + '\n' + inj_body])
-    twin = None if lost else make_twin(sig, contract, o.get('rename', o['name']))
+    twin = None if hard else make_twin(sig, contract, o.get('rename', o['name']))
     if twin:
         full += '\n' + twin
     meta = {
@@ -216,7 +218,7 @@ def build_fn(f, sources, fnmeta):
         'contract_file': o.get('contract_file'),
         # proof hints whose anchor no longer matches are dropped: the function is then checked without them and a
         # failure in it is 'undecided' (never reported as a violation on its own)
-        'lost_hints': lost,
+        'lost_hints': lost, 'not_checked': bool(hard),
     }
     return full, meta
 
